@@ -305,6 +305,17 @@ def finish(mod, tier, seed, tasks, results, t0, only_partial=False):
   replay_paths = []
   if new_violations:
     rc = 1
+    byfn = collections.Counter(v['case']['fn'] + ':' + str(v['case']['args'].get('kind', ''))
+                               if isinstance(v['case'], dict) else '?' for v in new_violations)
+    print('  violations by case kind: %s' % dict(byfn))
+    shown = set()
+    ordered = []
+    for v in new_violations:  # one of each kind first
+      k = v['case']['fn'] if isinstance(v['case'], dict) else '?'
+      if k not in shown:
+        shown.add(k)
+        ordered.append(v)
+    new_violations = ordered + [v for v in new_violations if v not in ordered]
     rdir = os.path.join(OUT, 'replays', pid)
     os.makedirs(rdir, exist_ok=True)
     for i, v in enumerate(new_violations[:10]):
